@@ -93,7 +93,9 @@ func (cs crashsim) Run(c *Case, dir string) *Outcome {
 	pageSets := map[int]map[uint64]bool{}
 	w := &sim.World{MapOrder: c.Prog.Cfg.MapOrder, Order: order, Disk: disk}
 	w.OnWrite = func(db *bolt.DB, off int64, n int) {
-		if db.Path() != path || e.LastDec == nil {
+		// the page-set monitor belongs to C06; in a C01 run it must not end the
+		// history before the crash states are built (the crash oracle decides)
+		if db.Path() != path || e.LastDec == nil || c.Prop != "C06" {
 			return
 		}
 		out.probe("writes-monitored", 1)
